@@ -48,6 +48,10 @@ type FakeRedis struct {
 	// Delay is slept before every GET / SET reply.
 	Delay  atomic.Int64
 	closed atomic.Bool
+	// GetDelay, when set, gives the latency of the n-th GET (n = 0, 1, ...) of a key since SetGetDelay was called;
+	// the larger of it and Delay applies.
+	getDelay atomic.Pointer[func(key []byte, n int) time.Duration]
+	getCount map[string]int
 	Hits   atomic.Int64
 	Pings  atomic.Int64
 	Sets   atomic.Int64
@@ -85,6 +89,18 @@ func (r *FakeRedis) KillConns() {
 		c.Close()
 	}
 	r.mu.Unlock()
+}
+
+// SetGetDelay installs (or, with nil, removes) a per-key latency schedule for GET commands and resets the per-key counters.
+func (r *FakeRedis) SetGetDelay(fn func(key []byte, n int) time.Duration) {
+	r.mu.Lock()
+	r.getCount = map[string]int{}
+	r.mu.Unlock()
+	if fn == nil {
+		r.getDelay.Store(nil)
+		return
+	}
+	r.getDelay.Store(&fn)
 }
 
 // OpenConns returns the number of client connections that are open right now.
@@ -229,6 +245,13 @@ func (r *FakeRedis) serve(c net.Conn) {
 			delay = time.Duration(r.Delay.Load())
 			now := time.Now()
 			r.mu.Lock()
+			if fn := r.getDelay.Load(); fn != nil {
+				n := r.getCount[string(args[1])]
+				r.getCount[string(args[1])] = n + 1
+				if d := (*fn)(args[1], n); d > delay {
+					delay = d
+				}
+			}
 			e, ok := r.data[string(args[1])]
 			if ok && !e.expire.After(now) {
 				delete(r.data, string(args[1]))
